@@ -50,7 +50,7 @@ func ExtractInstanceTags(m []byte) (ours, theirs uint32, ok bool) {
 		}
 
 		_, senderInstanceTag, _ := ExtractWord(msg[messageHeaderPrefix:])
-		_, receiverInstanceTag, _ := ExtractWord(msg)
+		_, receiverInstanceTag, _ := ExtractWord(msg[messageHeaderPrefix+4:])
 
 		return receiverInstanceTag, senderInstanceTag, true
 	} else if bytes.HasPrefix(m, []byte("?OTR|")) {
